@@ -66,6 +66,19 @@ def limitsOp : List String → Option String
     if !one d1 then pure "s1=408 s2=0 handler=0"
     else if !one gap then pure "s1=200 s2=408 handler=1"
     else pure "s1=200 s2=200 handler=2"
+  | ["tom", hS, kindsS] => do
+    -- several connections on one worker: each has its own clock, a scan of the idle peers decides for each one separately
+    let hdr ← hS.toNat?
+    let c : Timeouts.TCfg := { hdr := hdr, body := hdr }
+    let one (k : String) : Option String :=
+      if k == "K" then
+        -- a complete request every hdr/4 ms after the clock was restarted by the previous one
+        (match Timeouts.verdict c { th := some (hdr / 4), tb := some (hdr / 4) } 64 with | .timedOut _ => some "K:bad" | _ => some "K:ok")
+      else if k == "S" || k == "P" then
+        (match Timeouts.verdict c { th := none, tb := none } 64 with | .timedOut _ => some (k ++ ":408!") | _ => some (k ++ ":0"))
+      else none
+    let rs ← (kindsS.splitOn ",").mapM one
+    pure s!"conns={",".intercalate rs}"
   | _ => none
 
 end Drv
